@@ -356,6 +356,41 @@ pub fn run(ctx: &Ctx) {
         }
         if dag.len() >= 3 { Outcome::Held } else { Outcome::Trivial }
     });
+    // policy compilation: the root computed without building nodes (Policy::cmr), the root of the compiled
+    // commit program, and the root of a satisfied + pruned program are one root
+    ctx.run_sub("policy-compilation-paths", Plan::sample(t.pick(8_000, 200_000), 0.1), |rng, case| {
+        let pools = crate::c16::gen_pools(rng);
+        let mut spec = crate::txgen::gen_tx(rng, 2, 2);
+        crate::c16::tune_locks(rng, &mut spec);
+        let lt = crate::c16::lock_truth(&spec);
+        let mut budget = rng.urange(2, 30);
+        let depth = rng.urange(0, 5);
+        let pol = crate::c16::gen_pol(rng, depth, &lt, &mut budget);
+        let policy = crate::c16::to_policy(&pol, &pools);
+        case.desc = format!("{}", policy);
+        case.hash = Some(crate::rng::hash_str(&case.desc));
+        let direct = match crate::runner::guard(|| policy.cmr()) {
+            Ok(c) => c,
+            Err(pn) => return violated("panic:policy-cmr", pn),
+        };
+        let commit = match crate::runner::guard(|| policy.commit()) {
+            Ok(c) => c,
+            Err(pn) => return violated("panic:policy-commit", pn),
+        };
+        if commit.cmr() != direct {
+            return violated("cmr:policy-direct-vs-compiled", format!("Policy::cmr() = {} but commit().cmr() = {} ; {}", direct, commit.cmr(), case.desc));
+        }
+        spec.script_cmr = direct.to_byte_array();
+        let env = crate::txgen::build_env(&spec);
+        let avail = crate::c16::Avail { keys: [true; 4], pre: [true; 4] };
+        if let (Ok(prog), _) = crate::c16::satisfy_with(&policy, &pools, &avail, &lt, &env) {
+            case.count("policy.satisfied");
+            if prog.cmr() != direct {
+                return violated("cmr:policy-satisfied", format!("Policy::cmr() = {} but the satisfied program has {} ; {}", direct, prog.cmr(), case.desc));
+            }
+        }
+        Outcome::Held
+    });
     ctx.run_sub("words", Plan::sample(t.pick(30_000, 100_000), 0.1), check_words);
     let _ = TyParams::small();
 }
